@@ -1,12 +1,8 @@
 //! Executes a case under the simulator: the engine's real entry points run as simulator threads.
 
-use crate::case::{Case, DItem, Mode};
-use crate::chess::{move_struct::Move, Game};
-use crate::search::TranspositionTable;
+use crate::case::{Case, Mode};
 use crate::verif_shim::sched::{self, Outcome};
-use crate::verif_shim::sync::AtomicBool;
-use arrayvec::ArrayVec;
-use nohash_hasher::BuildNoHashHasher;
+
 
 pub fn run_case(case: &Case) -> Outcome {
     let mut params = case.params.clone();
@@ -22,6 +18,7 @@ pub fn run_case(case: &Case) -> Outcome {
                 Some(move || crate::gui::run_script(steps, tags)),
             )
         }
+        #[cfg(feature = "selfplay")]
         Mode::Autoplay => {
             params.search_on_main = true;
             let ms = case.autoplay_ms;
@@ -29,18 +26,93 @@ pub fn run_case(case: &Case) -> Outcome {
                 params,
                 case.plan.clone(),
                 move || {
-                    crate::autoplay::autoplay(ms);
+                    selfplay::call(crate::autoplay::autoplay, ms);
                     Ok(())
                 },
                 None::<fn()>,
             )
         }
+        #[cfg(feature = "direct")]
         Mode::Direct => {
             params.search_on_main = true;
             let items = case.items.clone();
-            sched::run(params, case.plan.clone(), move || run_items(items), None::<fn()>)
+            sched::run(params, case.plan.clone(), move || direct::run_items(items), None::<fn()>)
+        }
+        #[allow(unreachable_patterns)]
+        _ => {
+            eprintln!("HARNESS-ERROR: this case needs an entry point of the engine that this build of the simulator does not call (built without the `direct` or `selfplay` feature)");
+            std::process::exit(2);
         }
     }
+}
+
+/// `autoplay(ms)` with whatever integer type the parameter has, and with further parameters at their defaults
+#[cfg(feature = "selfplay")]
+mod selfplay {
+    pub trait Entry<M> {
+        fn go(&self, ms: u64);
+    }
+    impl<F: Fn(T), T: TryFrom<u64>> Entry<(T,)> for F {
+        fn go(&self, ms: u64) {
+            if let Ok(v) = T::try_from(ms) {
+                self(v)
+            }
+        }
+    }
+    impl<F: Fn(T, X), T: TryFrom<u64>, X: Default> Entry<(T, X)> for F {
+        fn go(&self, ms: u64) {
+            if let Ok(v) = T::try_from(ms) {
+                self(v, X::default())
+            }
+        }
+    }
+    pub fn call<M, F: Entry<M>>(f: F, ms: u64) {
+        f.go(ms)
+    }
+}
+
+#[cfg(feature = "direct")]
+mod direct {
+use crate::case::DItem;
+use crate::chess::{move_struct::Move, Game};
+use crate::search::TranspositionTable;
+use crate::verif_shim::sched;
+use crate::verif_shim::sync::AtomicBool;
+use arrayvec::ArrayVec;
+use nohash_hasher::BuildNoHashHasher;
+
+/// The search entry point as the harness calls it, whatever the engine's current spelling of it is: the game by
+/// reference, by mutable reference or by value, and further parameters (at their `Default`) after the four known ones.
+pub trait SearchEntry<M> {
+    fn search(&self, game: &Game, table: &mut TranspositionTable, flag: &AtomicBool, depth: Option<u8>) -> Option<Move>;
+}
+impl<F: Fn(&Game, &mut TranspositionTable, &AtomicBool, Option<u8>) -> Option<Move>> SearchEntry<(u8,)> for F {
+    fn search(&self, game: &Game, table: &mut TranspositionTable, flag: &AtomicBool, depth: Option<u8>) -> Option<Move> {
+        self(game, table, flag, depth)
+    }
+}
+impl<F: Fn(&mut Game, &mut TranspositionTable, &AtomicBool, Option<u8>) -> Option<Move>> SearchEntry<(u16,)> for F {
+    fn search(&self, game: &Game, table: &mut TranspositionTable, flag: &AtomicBool, depth: Option<u8>) -> Option<Move> {
+        self(&mut game.clone(), table, flag, depth)
+    }
+}
+impl<F: Fn(Game, &mut TranspositionTable, &AtomicBool, Option<u8>) -> Option<Move>> SearchEntry<(u32,)> for F {
+    fn search(&self, game: &Game, table: &mut TranspositionTable, flag: &AtomicBool, depth: Option<u8>) -> Option<Move> {
+        self(game.clone(), table, flag, depth)
+    }
+}
+impl<X: Default, F: Fn(&Game, &mut TranspositionTable, &AtomicBool, Option<u8>, X) -> Option<Move>> SearchEntry<(u8, X)> for F {
+    fn search(&self, game: &Game, table: &mut TranspositionTable, flag: &AtomicBool, depth: Option<u8>) -> Option<Move> {
+        self(game, table, flag, depth, X::default())
+    }
+}
+impl<X: Default, F: Fn(&mut Game, &mut TranspositionTable, &AtomicBool, Option<u8>, X) -> Option<Move>> SearchEntry<(u16, X)> for F {
+    fn search(&self, game: &Game, table: &mut TranspositionTable, flag: &AtomicBool, depth: Option<u8>) -> Option<Move> {
+        self(&mut game.clone(), table, flag, depth, X::default())
+    }
+}
+fn call_search<M, F: SearchEntry<M>>(f: F, game: &Game, table: &mut TranspositionTable, flag: &AtomicBool, depth: Option<u8>) -> Option<Move> {
+    f.search(game, table, flag, depth)
 }
 
 /// Builds the engine's game exactly as `command_position` does.
@@ -67,7 +139,7 @@ pub fn build_game(root: &str, moves: &[String]) -> Result<Game, String> {
 
 /// Direct-call mode: one table shared by a sequence of searches called straight through
 /// `search::get_best_move_until_stop` (the same function `uci.rs` and `autoplay.rs` call).
-fn run_items(items: Vec<DItem>) -> Result<(), String> {
+pub fn run_items(items: Vec<DItem>) -> Result<(), String> {
     let mut table: TranspositionTable = TranspositionTable::with_capacity_and_hasher(1024, BuildNoHashHasher::default());
     let mut prev: (String, Vec<String>) = (String::new(), vec![]);
     for (k, it) in items.iter().enumerate() {
@@ -173,7 +245,7 @@ fn one_search_ex(k: usize, game: &Game, table: &mut TranspositionTable, depth: O
     }
     sched::item_begin(stop_at);
     let flag = AtomicBool::new(!pre_stopped);
-    let best = crate::search::get_best_move_until_stop(game, table, &flag, depth);
+    let best = call_search(crate::search::get_best_move_until_stop, game, table, &flag, depth);
     match best {
         Some(m) => println!("bestmove {}", m.uci_notation()),
         None => println!("bestmove none"),
@@ -230,4 +302,5 @@ fn descend(root: &str, moves: &[String], plies: u8, pick: u64, table: &Transposi
         out.push(l[(sched::splitmix(&mut seed) % l.len() as u64) as usize].clone());
     }
     out
+}
 }
